@@ -352,8 +352,14 @@ def convert_templates(kind):
     return out
 
 
-def gen_convert(kind):
+def gen_convert(kind, restrict_to=None):
+    """-> (Coq text, templates, extras): `restrict_to` = set of (key_in, key_out) to keep in the Gen file; pairs the
+    generator accepts outside that set are returned as extras (not exported)."""
     t = convert_templates(kind)
+    extras = []
+    if restrict_to is not None:
+        extras = [x for x in t if (x[2], x[3]) not in restrict_to]
+        t = [x for x in t if (x[2], x[3]) in restrict_to]
     name = "legacy_converts" if kind == "legacy" else "venom_converts"
     ty = "lir" if kind == "legacy" else "vtemplate"
     term = lir_term if kind == "legacy" else (lambda n: vtemplate_term(*n))
@@ -361,4 +367,4 @@ def gen_convert(kind):
              f"Definition {name} : list (cty * cty * {ty}) := ["]
     lines.append(";\n".join(f"  ({ci}, {co}, {term(n)})" for ci, co, _, _, n in t))
     lines.append("].\n")
-    return "\n".join(lines), t
+    return "\n".join(lines), t, extras
